@@ -202,6 +202,23 @@ theorem bbox_correct {α} (fill : α) (xs : List α) (c : Int) (s : Nat) :
 
 
 
+/-- a box lying inside the axis (`0 ≤ lp`, `lp + s ≤ n` — what `complex_random_crop` guarantees for its drawn and
+clipped corner, `0 ≤ lp ≤ limit = n - s`) is returned as exactly the window `xs[lp : lp + s]`, no fill value involved -/
+theorem bbox_inside_eq_slice {α} (fill : α) (xs : List α) (lp s : Nat) (h : lp + s ≤ xs.length) :
+    cropToBbox fill xs lp s = .ok (slice xs lp (lp + s)) := by
+  rw [bbox_correct]
+  congr 1
+  apply List.ext_getElem?
+  intro k
+  rw [bboxSpec_getElem?, slice_getElem?]
+  by_cases hk : k < s
+  · have h1 : (0:Int) ≤ ↑lp + ↑k ∧ (↑lp + ↑k : Int) < ↑xs.length := by omega
+    have h2 : lp + k < lp + s := by omega
+    simp only [hk, h1, h2, and_self, if_true]
+    congr 1
+  · have h2 : ¬ lp + k < lp + s := by omega
+    simp only [hk, h2, if_false]
+
 /-! ### k-space crop / pad ≡ image-space crop / pad under the backward operator -/
 
 /-- **`PadKspace`**: for any operator pair with `bwd ∘ fwd = id` and a `view_as_complex`/`view_as_real` pair that are
